@@ -422,7 +422,9 @@ func atoi(th *Thread, s *StrVal) Value {
 			return fail()
 		}
 		d := mkZext(mkBin("bvsub", b, mkBV(8, '0')), 64)
-		val = mkBin("bvadd", mkBin("bvmul", val, mkBV(64, 10)), d)
+		// val*10 as shift-add (cheaper for the bit-blaster than bvmul)
+		ten := mkBin("bvadd", mkBin("bvshl", val, mkBV(64, 3)), mkBin("bvshl", val, mkBV(64, 1)))
+		val = mkBin("bvadd", ten, d)
 	}
 	return Tuple{mkIte(neg, mkNeg(val), val), nilError()}
 }
